@@ -143,6 +143,10 @@ def run(ctx):
                 v.fail(name, sig, what, {"scenario": sc, "row": {k: row[k] for k in row if k not in ("entry", "exit", "_fault")},
                                          "how": "go test -run TestVerifC04 (overlay) with the same VERIF_SEED; scenario id " + row["scn"]})
             continue
+        elif row["kind"] == "markwrite":
+            sig = {"cause": "marked_while_listed"}
+            what = ("%s marked %s for recovery while the published list was still %s (master %s) (scenario %s)"
+                    % (row["by"], row["host"], row["active"], row["master"], row["scn"]))
         else:
             lagj = [h for h in row["value"] if h != row["master"] and h in row["hosts"] and not row["hosts"][h]["sss"]
                     and row["hosts"][h]["datalag"] > row["enablelag"] and h not in row["old"]]
